@@ -5,16 +5,22 @@ A case is a toy force field (1-3 residue templates with unique atom names,
 2-5 modifications written as ``.ff`` text and parsed by the real parser) and a
 molecule of 1-5 residues on which modification instances are attached (the
 ground-truth cover), optionally perturbed (unexplained atom, extra bond inside
-a placement, extra bond to an outside atom, wrong element, missing atom).
+a placement, extra bond to an outside atom, wrong element, missing atom, two
+separate unexplained groups on the same residue(s) with different anchor
+multisets).
 The unrecognised atoms are flagged either directly or by the real RepairGraph.
 
 Oracle (independent of vermouth's matcher): an own induced-subgraph matcher
 (anchors by name, added atoms by element) enumerates candidate placements; an
 own exact-cover search looks for a cover of the surviving flagged atoms that is
 consistent with the names, `replace` changes and residue labels found in the
-output.  Removed atoms need an unknown-input warning; when the ground-truth
-cover is intact nothing may be removed or warned about.
+output.  Removed atoms need an unknown-input warning that names them
+(<atomid>-<atomname>, as the documented warning does) and kept atoms are named
+by none; when the ground-truth cover is intact nothing may be removed or
+warned about.
 """
+import re
+
 import networkx as nx
 
 from hypothesis import strategies as st
@@ -39,7 +45,8 @@ RULE = ('toy force field: 1-3 residue templates (2-5 atoms, tree + optional ring
         'atoms in total because the implementation is factorial in the size of a group it cannot cover; optionally bonds between '
         'added atoms of different instances), in ~40% of the draws one perturbation (unexplained atom on a template atom / on an '
         'added atom / floating, extra bond inside a placement, extra bond to an outside template atom, wrong element, missing added '
-        'atom); flags set directly (2/3) or by the real RepairGraph (1/3).  Non-trivial = a connected group of flagged atoms holds '
+        'atom, two separate unexplained one-atom groups on residue p: one on a single template atom, one bridging two template atoms '
+        'of p, both optionally also bonded to an atom of residue p+1); flags set directly (2/3) or by the real RepairGraph (1/3).  Non-trivial = a connected group of flagged atoms holds '
         'added atoms of >= 2 ground-truth instances, or some flagged atom lies in >= 2 different candidate placements '
         '(overlapping candidates).')
 ASSUMPTIONS = [
@@ -60,7 +67,9 @@ MAX_ANCHORS = 3
 MAX_FLAGGED = 6
 PERTURBATIONS = ['extra-atom-on-template', 'extra-atom-on-template', 'extra-atom-on-added', 'floating-atom',
                  'bond-inside-placement', 'bond-inside-placement', 'bond-inside-placement',
-                 'bond-to-outside-template-atom', 'wrong-element', 'missing-atom', 'fake-anchor', 'fake-anchor']
+                 'bond-to-outside-template-atom', 'wrong-element', 'missing-atom', 'fake-anchor', 'fake-anchor',
+                 'two-unknown-groups', 'two-unknown-groups']
+UNKNOWN_ELEMS = ['F', 'H', 'O', 'F', 'P']
 CHECKED_ATTRS = ('element', 'resid', 'resname', 'chain')
 REPLACE_ATTRS = ('atype', 'charge')
 D1_BUCKET = 'crash:AssertionError:vermouth/processors/canonicalize_modifications.py:identify_ptms'
@@ -492,6 +501,8 @@ def build_molecule(case, blocks, mods, ff):
     cap = MAX_FLAGGED - (1 if pert_kind in ('extra-atom-on-template', 'extra-atom-on-added', 'floating-atom') else 0)
     if pert_kind == 'fake-anchor':
         cap = MAX_FLAGGED - 3
+    if pert_kind == 'two-unknown-groups':
+        cap = MAX_FLAGGED - 2
 
     def sites_of(mod):
         span = len(mod['types']) == 2
@@ -553,7 +564,29 @@ def build_molecule(case, blocks, mods, ff):
         _, x, y, z = pert
         kind = pert_kind
         template_nodes = list(range(n_template))
-        if kind == 'extra-atom-on-template' or not instances:
+        if kind == 'two-unknown-groups':
+            # Two separate unexplained groups (one atom each) anchored in the same residue(s) but on different multisets of
+            # anchors: the first hangs on one template atom of residue p, the second bridges two template atoms of the same
+            # residue p; in about half of the draws both are also bonded to an atom of residue p+1 (anchors (p, q) and (p, p, q)).
+            p = x % len(restypes)
+            own = [node_of[(p, i)] for i in range(len(blocks[restypes[p]]['names']))]
+            single = own[y % len(own)]
+            first = own[z % len(own)]
+            second = own[(z + 1 + (y // 4) % (len(own) - 1)) % len(own)]
+            beyond = None
+            if (x // len(restypes)) % 2 and p + 1 < len(restypes):
+                beyond = node_of[(p + 1, (y + z) % len(blocks[restypes[p + 1]]['names']))]
+            new = add_flagged(UNKNOWN_ELEMS[(y + z) % len(UNKNOWN_ELEMS)], 'UNK', p)
+            mol.add_edge(single, new)
+            if beyond is not None:
+                mol.add_edge(beyond, new)
+            new = add_flagged(UNKNOWN_ELEMS[(x + z) % len(UNKNOWN_ELEMS)], 'UNL', p)
+            mol.add_edge(first, new)
+            mol.add_edge(second, new)
+            if beyond is not None:
+                mol.add_edge(beyond, new)
+            perturbed = kind
+        elif kind == 'extra-atom-on-template' or not instances:
             # unexplained atom on a template atom
             target = template_nodes[x % n_template]
             p = resids.index(mol.nodes[target]['resid'])
@@ -898,6 +931,27 @@ def run_case(case):
     if n_warn and not removed:
         raise Violation('warning-without-removal', 'unknown-input warning %r but nothing was removed' % logs.messages())
 
+    # --- the warning reports the atoms it is about (doc: "WARNING - unknown-input - Could not identify the modifications for
+    # residues ['SER3'], involving atoms ['21-O1', '22-O2', '23-O3', '24-P']"): every removed atom is named by some
+    # unknown-input warning as <atomid>-<atomname>, and no atom that was kept is
+    unknown_msgs = [msg for typ, msg in zip(logs.types(), logs.messages()) if typ == 'unknown-input']
+
+    def reported(idx):
+        label = '%s-%s' % (pre_nodes[idx].get('atomid'), pre_nodes[idx].get('atomname'))
+        pattern = r'(?<![0-9A-Za-z])' + re.escape(label) + r'(?![0-9A-Za-z])'
+        return label, any(re.search(pattern, msg) for msg in unknown_msgs)
+
+    for idx in sorted(removed):
+        label, named = reported(idx)
+        if not named:
+            raise Violation('removed-unreported', 'flagged atom %d (%s) was removed but no unknown-input warning names it; warnings: %r'
+                            % (idx, label, unknown_msgs))
+    for idx in sorted(flagged - removed):
+        label, named = reported(idx)
+        if named:
+            raise Violation('reported-but-kept', 'flagged atom %d (%s) is named by an unknown-input warning but was kept; warnings: %r'
+                            % (idx, label, unknown_msgs))
+
     survivors = flagged - removed
     all_nodes = frozenset(post)
     comps = flagged_components(pre_adj, flagged)
@@ -1053,6 +1107,10 @@ def run_case(case):
         classes.append('bond-between-instances')
     if _differently_keyed_groups_share_residue(comps, pre_nodes):
         classes.append('groups-with-different-anchor-residues-share-a-residue')
+    if _removed_groups_same_residues_different_anchors(comps, removed, pre_nodes):
+        classes.append('removed-groups-on-same-residues-with-different-anchor-multisets')
+    if n_warn >= 2:
+        classes.append('warnings>=2')
     return Outcome(classes, multi_group or overlap)
 
 
@@ -1090,6 +1148,20 @@ def _differently_keyed_groups_share_residue(comps, pre_nodes):
     for i, ki in enumerate(keys):
         for kj in keys[i + 1:]:
             if ki != kj and set(ki) & set(kj):
+                return True
+    return False
+
+
+def _removed_groups_same_residues_different_anchors(comps, removed, pre_nodes):
+    """Two connected groups of flagged atoms that were both removed, whose
+    anchors lie in the same set of residues but in different multisets."""
+    keys = []
+    for comp, anchors in comps:
+        if comp <= set(removed):
+            keys.append(tuple(sorted(pre_nodes[a]['resid'] for a in anchors)))
+    for i, ki in enumerate(keys):
+        for kj in keys[i + 1:]:
+            if ki != kj and set(ki) == set(kj):
                 return True
     return False
 
@@ -1135,10 +1207,10 @@ def _strategy(tier):
     })
     instance = st.tuples(st.integers(0, 4), small).map(list)
     perturb = st.one_of(st.none(), st.none(), st.none(), st.none(), st.none(), st.none(),
-                        st.tuples(st.integers(0, 11), small, small, small).map(list),
-                        st.tuples(st.integers(0, 11), small, small, small).map(list),
-                        st.tuples(st.integers(0, 11), small, small, small).map(list),
-                        st.tuples(st.integers(0, 11), small, small, small).map(list))
+                        st.tuples(st.integers(0, len(PERTURBATIONS) - 1), small, small, small).map(list),
+                        st.tuples(st.integers(0, len(PERTURBATIONS) - 1), small, small, small).map(list),
+                        st.tuples(st.integers(0, len(PERTURBATIONS) - 1), small, small, small).map(list),
+                        st.tuples(st.integers(0, len(PERTURBATIONS) - 1), small, small, small).map(list))
     return st.fixed_dictionaries({
         'blocks': st.lists(block, min_size=1, max_size=3),
         'mods': st.lists(mod, min_size=2, max_size=5),
@@ -1161,5 +1233,7 @@ PARTS = [
          examples={'quick': 2400, 'thorough': 50000},
          floors={'clean': 0.35, 'overlapping-candidates': 0.12, 'group-with>=2-instances': 0.01, 'instances>=2': 0.12,
                  'spanning-instance': 0.04, 'flags-by-RepairGraph': 0.06, 'some-removed': 0.04, 'shared-anchor': 0.06,
-                 'instance-with-replace': 0.15, 'perturbed:bond-inside-placement': 0.008}),
+                 'instance-with-replace': 0.15, 'perturbed:bond-inside-placement': 0.008,
+                 'perturbed:two-unknown-groups': 0.008,
+                 'removed-groups-on-same-residues-with-different-anchor-multisets': 0.008}),
 ]
